@@ -197,7 +197,8 @@ PROPS["C13"] = dict(
     explanation=("Theorems for ALL m, n on the generated constants: each of the 23 Church operations applied to numerals reduces "
                  "to the encoding of the expected number / boolean / pair (Proofs/ChurchArith.v: iteration lemma, inductions over "
                  "numerals, Z-unfolding with strong induction for div/quot/rem/shr); hence NOR returns it (C07) and any result "
-                 "of HNO/APP/HAP is it (C06). Termination of HNO/HAP/APP: bounded in-kernel grid (m, n <= 3)."))
+                 "of APP/HAP is it (C06). Termination of APP/HAP: for ALL m, n for succ/pred/is_zero/fac/add/mul (simply typable, hence strongly "
+                 "normalising: Spec/Typed.v + Proofs/EagerTyped.v); for the other operations bounded in-kernel grid (m, n <= 3)."))
 PROPS["C14"] = dict(
     suites=["ops:othernum"], oracle_re=r"oracle:C14:", gen=True,
     rule=("Scott/Parigot/Stump-Fu operations and the 7 conversions for m, n <= 4 (quick) / 6 (thorough), binary 0..40/70 "
@@ -232,7 +233,8 @@ PROPS["C16"] = dict(
                  "ARBITRARY element and tail terms; the four Vec conversions equal the closed forms that repeated cons produces; "
                  "each of the 18 pair-list library functions reduces to the encoding of the corresponding Coq list operation "
                  "(Proofs/PairList.v, OtherLists.v: Z-unfolding with induction over the list, rewriting modulo beta via a "
-                 "setoid on red); hence NOR/HNO return it (C07). Termination of HAP: bounded in-kernel grid (length <= 3 over {0,1})."))
+                 "setoid on red); hence NOR/HNO return it (C07). Termination of HAP: for ALL lists of numerals for the Church-list and "
+                 "pair-list constructors/observers (simply typable => strongly normalising); otherwise bounded in-kernel grid (length <= 3 over {0,1})."))
 PROPS["C17"] = dict(
     suites=["ops:laws", "ops:convert"], oracle_re=r"oracle:C17:", gen=True,
     rule=("each law with free-variable payloads (two assignments) and with random closed normal payloads, both sides "
